@@ -401,6 +401,144 @@ claim("C18",
       "(findings); truncated-corner maps in the write direction, component construction, materials, thermal expansion and "
       "composition are correspondence-only (independent Python evaluation); theta-RZ grids not generated.")
 
+
+# ---------------------------------------------------------------------------------------------------------------
+# Continuation round (session 2): additions to the claims above, as reported by the builders of that round.
+def extend(pid, text_add="", note_add="", tech_add=""):
+    text, note, tech = CLAIMED[pid]
+    CLAIMED[pid] = ((text + " " + text_add).strip(), (note + " " + note_add).strip(), (tech + tech_add))
+
+
+SRC_TECH = (" + source-translation tie: the integer functions the theorems are about are re-translated from the current "
+            "source text by tools/py2lean.py on every run; kernel-checked theorems Gen.Src.f = model f for all inputs and "
+            "corollaries restating the property over the translated definitions (Props/SrcTie); translator validated per run "
+            "by differential execution of generated Lean vs real Python")
+
+extend("C01",
+       "The state carries a truthiness flag per node and the no-predicate queries are transcribed through Python's filter: no "
+       "query depends on truthiness, getChildren() is the raw child list, removeAll/setChildren as written equal the list-walk "
+       "versions, and typed queries (getChildrenWithFlags/OfType, getFirstBlock/ByType, getAncestorWithFlags) meet their specs; in "
+       "every reachable state the deep query is the duplicate-free set of strict descendants with no fuel hypothesis; ex-core edits "
+       "(SpentFuelPool/ExcoreStructure.add, discharge into the pool) keep the forest well formed (wfl_run2, discharge_spec). Tied on "
+       "trees with falsy nodes and grid owners in every locator-cache state.",
+       "grid cache length is not modelled (re-linking is unconditional in the model); the component queries (getComponent, "
+       "getComponentByName, ...) and the container protocol are oracle-only.")
+extend("C16",
+       "makeParametersReadOnly is modelled as the walk over the reactor's child lists: every reachable node in any system is "
+       "read-only, any later sequence of assignment, unlock or scope attempts is refused and the state is unchanged "
+       "(readonly_tree_refuses); material caches are in the model (material_cache_restored). Tied on reactors whose spent fuel pool "
+       "and ex-core structures hold assemblies, with every reachable object probed, also after Database.loadReadOnly.",
+       "loadReadOnly is oracle-only; a material is an object without definitions; only a sample of materials and of read-only "
+       "attempts goes through the model, while the oracle judges all.")
+extend("C07",
+       "Nesting at arbitrary depth (global centre/base/top are sums along the ancestor chain, through theta-R-Z levels too); the "
+       "addingIsValid contract proved for every grid from its constructor arguments (axial-in-axial and lattice children keep their "
+       "own indices); the label codec round-trips for all non-negative indices and for every hex cell. Tie: every (parent kind, "
+       "child kind) pair of 10 grid kinds plus seeded depth 2-4 nestings, label strings, and locator-object round trips.",
+       "labels are modelled over digits and '-' (Python int() extras are not); getCompleteIndices under a free-coordinate parent "
+       "inside a grid is outside the tie. Source tie proved for numPositionsInRing, totalPositionsUpToRing, "
+       "HexGrid.getPositionsInRing/indicesToRingPos/getRingPos/_indicesAndEdgeFromRingAndPos/getIndicesFromRingAndPos/"
+       "getNeighboringCellIndices, ThetaRZGrid.getRingPos/getIndicesFromRingAndPos, CartesianGrid.getPositionsInRing; not "
+       "established (outside the translatable subset: float sqrt, 0.5 offsets, itertools) for numRingsToHoldNumCells, "
+       "HexGrid.getMinimumRings, CartesianGrid.getRingPos/getMinimumRings - correspondence only.", SRC_TECH)
+extend("C08",
+       "Every child of a rotated block is rotated on its own (independent of the others, children stay distinct, site multisets are "
+       "the rotated multisets, child order irrelevant); HexAssembly.rotate is per-block rotation behind the 60-degree guard. Tied on "
+       "blocks with 2-4 pin types from blueprint lattice maps and built by hand (shared locators), k in 0..11 plus sequences, and "
+       "assemblies of them with refused angles.",
+       "the float remainder rad % (pi/3) is a parameter of the guard. Source tie for HexGrid._getSymmetricIdenticalsThird, "
+       "overlapsWhichSymmetryLine, isInFirstThird (+ indicesToRingPos); rotateIndex (deque) and getIndexOfRotatedCell (float) "
+       "correspondence only.", SRC_TECH)
+extend("C15",
+       "TightCoupler bookkeeping and _performTightCoupling over coupler objects are modelled: the number of rounds is proved to be "
+       "min(run cap, first all-converged round + 1) whatever maxIters or counter each coupler carries, tied function-level to real "
+       "couplers; expandRepeatedFloats is modelled and characterised; event dispatch with excluded names is tied through the public "
+       "interactAll* methods.",
+       "stepLength/power inside hooks are oracle-only; MPI workers are not modelled. Source tie for all five node-arithmetic "
+       "functions of armi/utils including the two loops (getBurnSteps(cs) enters as a list parameter); the schedule (Operator) "
+       "remains correspondence only.", SRC_TECH)
+extend("C06",
+       "Histories over arbitrary selections of steps x parameters through Database, DatabaseInterface and HistoryTrackerInterface "
+       "are proved to return value-or-default for every sequence of assignments, clock changes and writes, also for parameters that "
+       "had no dataset when a step was written (history_value_or_default, writeP_storedValue); a completed restart run holds exactly "
+       "the earlier steps of the reload database, unchanged, then its own nodes and EOL (restart_run_spec). Tied to forked-child "
+       "histories on HDF5 and to real restart runs at every node.",
+       "one object type per modelled history; preloaded block histories oracle only; crash_file_spec for restart runs assumes the "
+       "merged history holds no error snapshot of the failing node; syncToSharedFolder is not modelled.")
+extend("C10",
+       "Every reachable target stays in the theorems' domain, so merges after rejected merges are covered; what a rejected merge can "
+       "touch is bounded (metadata kept, target labels a prefix, untouched nuclides identical); dropping a file-wide chi leaves every "
+       "fissile nuclide with its own chi; createMacrosFromMicros as a whole and computeMacroscopicGroupConstants (also with multLib) "
+       "equal the defining sums over the effective composition, nuclide-order-invariant; block-average chi equals its defining sum. "
+       "Tied additionally on every conflict kind x position, go-on sequences after rejections, file-wide chi state by state, and the "
+       "working-directory merge flow.",
+       "order independence, union and identity are proved only for libraries without a file-wide chi; higherOrderScatter, "
+       "nOrderProductionMatrix and diffusionConstants are oracle-only; 'rejected => unchanged' is proved only for the rollback "
+       "variant (mergeAtomic, a candidate fix not applied) and for the first-nuclide / first-property cases; file selection and file "
+       "I/O of mergeXSLibrariesInWorkingDirectory are oracle-only on scratch copies.")
+extend("C11",
+       "_computeAverageAxialMesh / generateCommonMesh are in the model (averageAxialMesh_spec, generateCommonMesh_spec) and tied on "
+       "whole cores; the public convert() / applyStateToOriginal() path of the neutronics and gamma converters is exercised end to "
+       "end in both directions, both paths, for every parameter the converter lists, oracle-checked per assembly and model-compared "
+       "on sampled pairs.",
+       "reaction-rate recalculation and XS-type selection are outside the model.")
+extend("C12",
+       "The top block absorbs the change by position whatever it contains (top_block_by_position); ExpansionData's stored factors "
+       "(setExpansionFactors validation and assignment, getExpansionFactor) with one ExpansionData re-used over successive steps and "
+       "the fresh-per-step route are modelled and proved equal for unambiguous histories (runReuse_eq_runFresh); densities divide by "
+       "the product of factors over any sequence with no hypothesis; every closed sequence (g, 1, 1/g) restores heights, densities "
+       "and masses; the thermal factor dispatch (updateComponentTemp, updateComponentTempsBy1DTempField block averages, "
+       "computeThermalExpansionFactors) is modelled. Tied call by call, step by step and history by history on fixture, "
+       "constructor-built and blueprint-edited assemblies, including top dummy blocks that carry solids.",
+       "manageCoreMesh and expandColdDimsToHot are oracle-only (their re-meshing belongs to C11).")
+extend("C13",
+       "Below block level: a transcription of deepcopy + rotate for blocks, pin lattices, lattice owners and pin sites; in every "
+       "state reachable by any sequence of the four operations no two assemblies share a block or lattice (no_shared_node, "
+       "clean_run), every copy owns its lattices, its pins are the source's turned by the copy's angle (index level and Euclidean, "
+       "pin_global_turn_120/240), and everything below an original assembly is unchanged (sources_untouched_run); scaling the centre "
+       "down undoes scaling up for None, list, scalar and array values (scaleVal_down_up). Tied on two reactors (reference reactor "
+       "and anl-afci-177, auto-created and partial pin lattices) by first-encounter object naming after every operation, real "
+       "getGlobalCoordinates of pins, whole-graph identity disjointness for sampled orbits, every stored parameter after restore, and "
+       "every volume-integrated parameter after convert.",
+       "CoordinateLocation children are checked in global coordinates only; the object graph below components is checked by identity "
+       "on the real copies only; pins are sampled; blueprint-defined lattices are emulated by partial lattices.")
+extend("C14",
+       "SpentFuelPool._getNextLocation transcribed and proved to always find the first free pool cell and never an occupied one; the "
+       "oracle also checks placement below block level (parents, axial grid, lattice owner, pin coordinates follow the assembly) and "
+       "that pool cells are distinct.",
+       "numMoves/lastLocationLabel bookkeeping, the FuelHandler.moved list, and symmetry-factor rescaling on moves are not modelled.")
+extend("C17",
+       "Write/read is the identity in all three styles for every settings object reachable by any history of assignments, reverts, "
+       "default changes, copies (deepcopy/duplicate/pickle) and modified(); copies hold their original's values and 'at default' is "
+       "derived from value = default; for All(Coerce(int|float), Range) schemas (scalars and lists) the schema is modelled as "
+       "coerce-then-validate and proved sound and a fixpoint. Tied additionally by copy histories written and read back and by "
+       "near-miss boundary values per setting through assignment and file read (an accepted value must read back equal).",
+       "string/dict/option schemas and YAML formatting remain parameters; a locally changed default is not visible to a fresh reader.")
+extend("C18",
+       "The class that writes a grid blueprint is the one reading dispatches to (corners-up full <=> tips-up), and corners-up full "
+       "lattices with the anchor cells occupied are saved and read back index-for-index; link resolution and the pin-to-duct check "
+       "are invariant under permutation of a block's component declarations. Tied by save/reload for all 12 supported (geom, "
+       "symmetry) combinations and by pin blocks and generated documents rebuilt in permuted declaration orders.",
+       "verifyBlockDims is modelled for Hexagon ducts only.")
+extend("C19",
+       "MCNP and AAAZZZS ids of every table row decode to (z, a, state) by proved decoders that are also applied to the "
+       "implementation's own ids; elemental nuclides never share an identifier with each other or with an isotope; for materials "
+       "using the base-class formulas, positive density and pseudo-density follow by theorem from a positive reference density and "
+       "expansion above -100 %, with the hypotheses evaluated on the real objects; materials are resolved by name and through "
+       "ordered plugin namespaces; temperature grids include candidate switch points taken from the source literals.",
+       "expansion correlations remain sampled data. Source tie for the integer part of NuclideBase.getMcnpId / getAAAZZZSId (format "
+       "template compared as data); _createLabel and the table remain regenerated-data / correspondence.", SRC_TECH)
+extend("C20",
+       "The manager-level flow is modelled and proved as well: group-bound validation and the interval meaning of a group index; the "
+       "whole-list environment update (total with <= 53 numbers, pointwise, refused above 52); eligibility by flags; two-pass grouping "
+       "(blueprint-only copies never join core groups); represented / unrepresented / pre-generated status; the frame condition of "
+       "_modifyUnrepresentedXSIDs and identical candidate lists on a second call; getNextAvailableXsTypes and the one-to-one id map of "
+       "_getModifiedReprBlocks; the component temperature with its zero-mass fall-back; nuclide temperatures from raw per-component "
+       "terms with trace densities; the 1-D cylinder/slab area-weighted average; the by-component decision. Tied at function level "
+       "and end to end through interactBOC / interactEveryNode, twice and after block-type changes, on the reference reactor.",
+       "LFP handling and deep copies; copying of pre-generated files; slab geometry has no fixture (its averaging routine is tied at "
+       "function level); no source tie: the label functions are string code outside the translatable subset.")
+
 NOT_YET = {}
 
 ALL = [f"C{n:02d}" for n in range(1, 21)]
